@@ -7,7 +7,10 @@
    `loadable cs n` says whether loading the d-DNNF recompiled from (cs, n) succeeds (it panics
    for an unsatisfiable CNF, finding K9); the theorems hold for every such predicate.
    R loadable d m  is the coupling invariant between a model state d and an abstract machine
-   state m; C12_coupling spells it out. *)
+   state m; C12_coupling spells it out.
+   load_cnf is the loader after repair F9 of /repo (Ddnnf::new attaches the clause cache to every
+   model built from a CNF file, also when the stored clause set is empty; finding K14);
+   load_cnf_v0 is the loader before it. *)
 From Coq Require Import List ZArith Bool String.
 From DD Require Import Model.Circuit Model.Query Spec.CnfMachine Model.ClauseCache
   Proofs.CountsA Proofs.QueryDefs
@@ -16,8 +19,8 @@ From DD Require Import Model.Circuit Model.Query Spec.CnfMachine Model.ClauseCac
 Import ListNotations.
 Open Scope Z_scope.
 
-(* MAIN.  A CNF file (clause lines raw without literal 0, satisfiable, stored set not empty)
-   is loaded; then ANY list of commands is run (clause-update with any t / add / rmv lists,
+(* MAIN.  A CNF file (good_input: clause lines raw without literal 0, satisfiable - the stored
+   set may be empty: no clause lines, or tautologies only) is loaded; then ANY list of commands is run (clause-update with any t / add / rmv lists,
    undo-update, save-cnf).  Every answer is the one the abstract machine prescribes
    (answers_ok: an update answers "" iff the machine accepts it and an error iff it rejects it,
    undo-update answers "", save-cnf writes exactly the machine's clause set and feature count;
@@ -32,17 +35,18 @@ Theorem C12_refines : forall loadable raw n d cmds,
 Proof. exact refines. Qed.
 Print Assumptions C12_refines.
 
-(* With the repair proposed for finding K14 (repo_patches/F9-empty-cnf-clause-cache.patch: the
-   clause cache exists for every CNF input) the same holds without "stored set not empty". *)
-Theorem C12_refines_k11_repaired : forall loadable raw n d cmds,
-  nzs raw -> (exists s0 : asg, cs_sat s0 raw = true) ->
-  load_cnf_with true loadable raw n = Some d ->
-  let m0 := m_init (stored_set raw) n in
-  let '(d', ans) := cc_run false loadable d cmds in
-  answers_ok loadable m0 cmds ans /\
-  (~ In APanic ans -> R loadable d' (m_run m0 cmds)).
-Proof. exact refines_k11_repaired. Qed.
-Print Assumptions C12_refines_k11_repaired.
+(* the hypotheses on the input, spelled out (nothing about the stored set) *)
+Theorem C12_good_input : forall raw,
+  good_input raw <-> nzs raw /\ (exists s0 : asg, cs_sat s0 raw = true).
+Proof. intros raw. reflexivity. Qed.
+Print Assumptions C12_good_input.
+
+(* every loaded CNF has a clause cache, initialised with the stored set and the header's n *)
+Theorem C12_load_has_cache : forall loadable raw n d,
+  load_cnf loadable raw n = Some d ->
+  cached d = Some (initialize (stored_set raw) n) /\ live_of d = (raw, n) /\ loadable raw n = true.
+Proof. exact load_has_cache. Qed.
+Print Assumptions C12_load_has_cache.
 
 (* What the coupling means: the stored clause set IS the machine's set (in BTreeSet order), the
    stored total is the machine's n, the live model was compiled from a CNF with exactly the
@@ -198,7 +202,7 @@ Theorem C12_fixed_on_refuting_histories :
 Proof. exact fixed_on_refuting_histories. Qed.
 Print Assumptions C12_fixed_on_refuting_histories.
 
-(* ---------- findings on HEAD ---------- *)
+(* ---------- finding on HEAD ---------- *)
 (* K9: with loadable = "the CNF is satisfiable" (d4 prints `f 1 0` otherwise and loading that
    panics): CNF {1 2} over 2 features, `clause-update add 1 0 -1` panics, and the panic leaves
    the stored set {-1},{1},{1 2} (no model) with a live model that still has 3 models. *)
@@ -212,25 +216,42 @@ Theorem C12_refuted_unsat_panic :
 Proof. exact refuted_unsat_panic. Qed.
 Print Assumptions C12_refuted_unsat_panic.
 
-(* K14: a CNF whose stored set is empty (no clause, or only tautologies) gets no cache:
-   save-cnf and clause-update answer an error, `clause-update t 3` panics. *)
-Theorem C12_refuted_empty_cnf :
-  exists raw n d, load_cnf always raw n = Some d /\ (forall s : asg, cs_sat s raw = true) /\
+(* ---------- the loader before the repair F9 (K14) ---------- *)
+(* a CNF whose stored set is empty (no clause, or only tautologies) got no cache: save-cnf and
+   clause-update answered an error (`clause-update t 3` panicked before fix 1bbe455); the repaired
+   loader answers the same history as the abstract machine: the update from the empty set is
+   accepted, save-cnf writes `p cnf 2 0` / `p cnf 2 1 / 1 0`, t grows n, undo swaps *)
+Theorem C12_refuted_empty_cnf_v0 :
+  exists raw n d, load_cnf_v0 always raw n = Some d /\ (forall s : asg, cs_sat s raw = true) /\
     save_cnf d = AErr E5_no_save /\
     snd (clause_update false always d None [[1]] []) = AErr E5_no_clauses /\
-    snd (clause_update false always d (Some 3) [] []) = AErr E5_no_clauses.
-Proof. exact refuted_empty_cnf. Qed.
-Print Assumptions C12_refuted_empty_cnf.
+    snd (clause_update false always d (Some 3) [] []) = AErr E5_no_clauses /\
+    exists d', load_cnf always raw n = Some d' /\
+      save_cnf d' = ASaved ["p cnf 2 0"%string] /\
+      snd (cc_run false always d' [CUpdate None [[1]] []; CSave; CUpdate (Some 3) [] []; CSave; CUndo; CUndo; CSave]) =
+      [AOk; ASaved ["p cnf 2 1"; "1 0"]%string; AOk; ASaved ["p cnf 3 1"; "1 0"]%string; AOk; AOk;
+       ASaved ["p cnf 3 1"; "1 0"]%string].
+Proof. exact refuted_empty_cnf_v0. Qed.
+Print Assumptions C12_refuted_empty_cnf_v0.
+
+(* for a non-empty stored set F9 changes nothing *)
+Theorem C12_load_cnf_v0_nonempty : forall loadable raw n,
+  stored_set raw <> [] -> load_cnf_v0 loadable raw n = load_cnf loadable raw n.
+Proof. exact load_cnf_v0_nonempty. Qed.
+Print Assumptions C12_load_cnf_v0_nonempty.
 
 (* ---------- non-vacuity ---------- *)
 (* the hypotheses of C12_refines hold for the CNF {1 2},{-1 3} over 3 features ... *)
 Example ex_c12_good_input : good_input raw0 /\ load_cnf always raw0 3 = Some d0.
 Proof.
-  split; [|reflexivity]. split; [|split].
+  split; [|reflexivity]. split.
   - intros c [<-|[<-|[]]] l Hl; cbn in Hl; intuition (subst; discriminate).
   - exists (fun _ => true). reflexivity.
-  - vm_compute. discriminate.
 Qed.
+(* ... and for CNFs with an empty stored set: no clause lines, tautologies only *)
+Example ex_c12_empty_input : good_input [] /\ good_input [[1; -1]] /\ stored_set [[1; -1]] = [] /\
+  exists d, load_cnf always [[1; -1]] 2 = Some d.
+Proof. exact empty_cnf_good. Qed.
 Example ex_c12_R : R always d0 m0.
 Proof. destruct ex_c12_good_input as [H1 H2]. exact (load_R always raw0 3 d0 H1 H2). Qed.
 
